@@ -50,6 +50,8 @@ class C13(Harness):
         out.append({"name": "conditional-deseasonalizer", "kind": "conditional", "model": "additive", "cost": 2})
         out.append({"name": "detrender-stub", "kind": "detrend-stub", "cost": 2})
         out.append({"name": "detrender-default-poly", "kind": "detrend-poly", "cost": 2})
+        # a trend model that is not translation-equivariant (line through the first training point), small symbolic origin
+        out.append({"name": "detrender-poly-nointercept-origin", "kind": "detrend-poly", "nointercept": True, "origin": 3, "cost": 2})
         out.append({"name": "boxcox", "kind": "boxcox", "cost": 1})
         out.append({"name": "log", "kind": "log", "cost": 1})
         out.append({"name": "adaptor", "kind": "adaptor", "cost": 1})
@@ -140,6 +142,8 @@ class C13(Harness):
         q = self._tier == "quick"
         k = cell["kind"]
         inp = {"s0": ctx.fresh_int("s0")}
+        if cell.get("origin"):
+            ctx.assume((inp["s0"] >= -cell["origin"]) & (inp["s0"] <= cell["origin"]))
 
         def choice(name, lo, hi):
             v = ctx.fresh_int(name)
@@ -255,6 +259,22 @@ class C13(Harness):
             z = pd.Series(list(inp["z"]), index=pd.Index([s0 + inp["d"] + (i if i == 0 else i + 1) for i in range(len(inp["z"]))]))
         else:
             z = ser(inp["z"], s0 + inp["d"])
+        from sklearn.base import BaseEstimator, TransformerMixin
+
+        class Sk(TransformerMixin, BaseEstimator):
+            """stateful: the transform depends on a statistic learnt in fit (the first training value)"""
+
+            def fit(self, X, y=None):
+                log.append({"op": "sk.fit", "shape": list(X.shape)})
+                self.ref_ = L(X)[0][0]
+                return self
+
+            def transform(self, X):
+                return np.array([[W.uf("sk", [v, self.ref_], "rr>r") for v in row] for row in L(X)])
+
+            def inverse_transform(self, X):
+                return np.array([[W.uf("skinv", [v, self.ref_], "rr>r") for v in row] for row in L(X)])
+
         if k in ("deseason", "conditional"):
             D = W.load(DES)
             if k == "deseason":
@@ -277,6 +297,9 @@ class C13(Harness):
             if k == "detrend-stub":
                 Member = make_member(W, log)
                 t, t2 = DT(forecaster=Member(p=1)), DT(forecaster=Member(p=1))
+            elif cell.get("nointercept"):
+                PT = W.load("sktime.forecasting.trend").PolynomialTrendForecaster
+                t, t2 = DT(PT(degree=1, with_intercept=False)), DT(PT(degree=1, with_intercept=False))
             else:
                 t, t2 = DT(), DT()
             t.fit(ytr)
@@ -299,22 +322,6 @@ class C13(Harness):
             out["ft"] = pack(t2.fit_transform(ytr))
             out["tt"] = pack(t.transform(ytr))
         elif k == "adaptor":
-            from sklearn.base import BaseEstimator, TransformerMixin
-
-            class Sk(TransformerMixin, BaseEstimator):
-                """stateful: the transform depends on a statistic learnt in fit (the first training value)"""
-
-                def fit(self, X, y=None):
-                    log.append({"op": "sk.fit", "shape": list(X.shape)})
-                    self.ref_ = L(X)[0][0]
-                    return self
-
-                def transform(self, X):
-                    return np.array([[W.uf("sk", [v, self.ref_], "rr>r") for v in row] for row in L(X)])
-
-                def inverse_transform(self, X):
-                    return np.array([[W.uf("skinv", [v, self.ref_], "rr>r") for v in row] for row in L(X)])
-
             AD = W.load("sktime.transformations.series.adapt").TabularToSeriesAdaptor
             t, t2 = AD(Sk()), AD(Sk())
             t.fit(ytr)
@@ -322,9 +329,10 @@ class C13(Harness):
             out["tt"] = pack(t.transform(ytr))
             out["fitshape"] = log[0]["shape"]
         elif k == "passthrough":
-            T, _ = make_transformer(W, log)
+            # the wrapped transformer is stateful (its transform depends on what fit saw): transform must not re-estimate it
+            AD = W.load("sktime.transformations.series.adapt").TabularToSeriesAdaptor
             OP = W.load("sktime.transformations.series.compose").OptionalPassthrough
-            t, t2 = OP(T(tag=1), passthrough=inp["passthrough"]), OP(T(tag=1), passthrough=inp["passthrough"])
+            t, t2 = OP(AD(Sk()), passthrough=inp["passthrough"]), OP(AD(Sk()), passthrough=inp["passthrough"])
             if inp.get("reused"):
                 t.set_params(passthrough=not inp["passthrough"])
                 t.fit(ytr)
@@ -403,6 +411,10 @@ class C13(Harness):
             ybar = sum(y) / n
             sxx = sum((t - tbar) ** 2 for t in range(n))
             slope = sum((t - tbar) * (y[t] - ybar) for t in range(n)) / sxx
+            if cell.get("nointercept"):
+                # the line through (start of the training series, 0): time is counted from the training start
+                tbar, ybar = 0, 0
+                slope = sum(t * y[t] for t in range(n)) / sum(t * t for t in range(n))
             for i in range(len(z)):
                 tpos = d + i
                 P.eq("detrend-subtracts-forecast-at-labels", zt[i], z[i] - (ybar + slope * (tpos - tbar)))
@@ -424,8 +436,9 @@ class C13(Harness):
                     P.eq("passthrough", zt[i], z[i])
                     P.eq("passthrough", bk[i], z[i])
                 else:
-                    P.eq("passthrough", zt[i], W.uf("t", [1, z[i]], "ir>r"))
-                    P.eq("passthrough", bk[i], W.uf("tinv", [1, W.uf("t", [1, z[i]], "ir>r")], "ir>r"))
+                    ref = inp["ytr"][0]  # the wrapped transformer's state comes from the training series, whatever is transformed later
+                    P.eq("passthrough", zt[i], W.uf("sk", [z[i], ref], "rr>r"))
+                    P.eq("passthrough", bk[i], W.uf("skinv", [W.uf("sk", [z[i], ref], "rr>r"), ref], "rr>r"))
 
     def signature(self, label, inp, cell):
         return "%s/%s" % (cell["name"], label)
